@@ -185,6 +185,50 @@ def gen_case(rng, kills, nested, nframes=None, raises=0.25):
     return case
 
 
+def gen_many(rng):
+    """Many concurrent waiters: 6-10 coroutines all started before the first
+    frame, whose deadlines are pushed in non-sorted order (ascending runs, a
+    small value after a big one, duplicates, long tails), then enough small
+    frames to see every wake-up in its exact frame; after waking they wait
+    again, so pushes and pops of the wait heap interleave."""
+    n = rng.randint(6, 10)
+    u = rng.choice([8, 8, 4, 2])            # granularity of waits and frames, in eighths
+    firsts, top = [], 0
+    for _ in range(n):
+        r = rng.random()
+        if not firsts or r < 0.45:
+            top = top + rng.randint(1, 4)   # ascending run / long tail
+            firsts.append(top)
+        elif r < 0.85:
+            firsts.append(rng.randint(1, max(1, top - 1)))   # small after big
+        else:
+            firsts.append(rng.choice(firsts))                # duplicate
+    if rng.random() < 0.3:
+        rng.shuffle(firsts)
+    mixed = rng.random() < 0.5
+    scripts = []
+    for g in range(n):
+        steps = []
+        ws = [firsts[g]] + [rng.choice([None, 1, 1, 2, 3, 5, rng.randint(1, top + 1)])
+                            for _ in range(rng.randint(0, 3))]
+        for w in ws:
+            res = ['yield', None if w is None else w * u]
+            if mixed and w is not None:
+                res.append(rng.choice(tags_for(w * u)))
+            steps.append([[], res])
+        steps.append([[], ['return', rng.choice([None, g])]])
+        scripts.append([g, steps])
+    ops = [['start', g] for g in range(n)]
+    if rng.random() < 0.3:
+        rng.shuffle(ops)
+    nframes = min(30, top + rng.randint(4, 10))
+    for _ in range(nframes):
+        r = rng.random()
+        dt = u if r < 0.8 else (0 if r < 0.88 else (2 * u if r < 0.95 else u // 2))
+        ops.append(['process', dt, rng.choice(tags_for(dt))] if mixed else ['process', dt])
+    return dict(scripts=scripts, ops=ops, many=True)
+
+
 # ----------------------------------------------------------- implementation
 class _Boom(Exception):
     pass
@@ -435,7 +479,7 @@ def stats(cases, traces):
             tot['hangs'] += 1
             continue
         prev = None
-        for key in ('pre', 'world', 'deco', 'promise'):
+        for key in ('pre', 'world', 'deco', 'promise', 'many'):
             if key in c:
                 tot['extras'][key] = tot['extras'].get(key, 0) + 1
         for _, steps in c['scripts']:
@@ -488,7 +532,7 @@ def shrink(case):
         yield mk(ops=ops[:k])
     for i in range(n):
         yield mk(ops=ops[:i] + ops[i + 1:])
-    for key in ('deco', 'world', 'promise', 'pre'):
+    for key in ('deco', 'world', 'promise', 'pre', 'many'):
         if key in case and not (key == 'world' and 'deco' in case):
             c = dict(case)
             del c[key]
